@@ -43,6 +43,7 @@ struct Config {
     int64_t clock_jump_ms = 0;    // magnitude of a jump (sign is drawn)
     int clock_step_max_ms = 2;    // per scheduling point the clock advances U[0,max] ms
     int step_cap = 20000;
+    bool atomic_points = true;    // T-flavour only: every instrumented std::atomic operation of tulz/harness code is a scheduling point
     bool post_op_points = true;   // scheduling point also right after lock / unlock / wait-return / signal (not only before)
     bool replay = false;          // follow `script` instead of drawing
     std::vector<Decision> script;
@@ -83,7 +84,7 @@ struct Stats {
     uint32_t switches = 0;        // context switches
     uint32_t threads = 0;
     uint32_t spurious = 0, signal_choices = 0, clock_jumps = 0, late_starts = 0, starved_steps = 0;
-    uint32_t mutex_contended = 0, cond_parks = 0;
+    uint32_t mutex_contended = 0, cond_parks = 0, atomic_points = 0;
     int64_t sim_ms = 0;
     uint64_t sched_hash = 0;      // hash of all decisions
     uint64_t event_hash = 0;      // hash of all events
@@ -115,6 +116,7 @@ void set_deadlock_classifier(std::function<std::string(const std::vector<ThreadI
 // ---------------------------------------------------------------- API for harness code running inside a simulation
 int self();                          // simulated thread id (0 = controller), -1 outside
 void yield();                        // plain scheduling point
+void atomic_point();                 // scheduling point before an instrumented atomic operation (sim/tsan_atomics.cpp)
 void yield_poll();                   // scheduling point; the caller is not scheduled again before another thread has run
 void wait_until(const std::function<bool()>& pred);  // block until pred() (evaluated by the scheduler; must be pure)
 void set_tag(int tag);               // annotate "what this thread is doing" (copied into EV_PARK / EV_MBLOCK)
